@@ -330,6 +330,11 @@ def _subpackage_metamodel(rng, serial):
         (parent if rng.random() < 0.4 else root).eSubpackages.append(sub)
         parent = sub
         Kind = EEnum('Kind', literals=list(lits[i]))
+        if rng.random() < 0.5:
+            # display texts (EEnumLiteral.literal) that differ from the names: documents name a literal by its NAME
+            for li, lit_ in enumerate(Kind.eLiterals):
+                if rng.random() < 0.6:
+                    lit_.literal = rng.choice(['in-progress', 'In Progress', '+', lit_.name.lower(), lits[i][(li + 1) % len(lits[i])]])
         # same name, different conversions: upper-cased text / an int written as text
         Code = (EDataType('Code', str, from_string=lambda s: s.upper(), to_string=lambda v: v.lower()) if i % 2 == 0
                 else EDataType('Code', int, from_string=lambda s: int(s), to_string=lambda v: str(v)))
